@@ -542,6 +542,103 @@ def gen(_shared):
     out.append("(* Date.__sub__, timedelta operand (first statement checked; the date-operand branch builds an Interval: not translated) *)\n"
                "Definition glue_Date___sub___timedelta (d : gdate) (o : gop) : result gdate := g_date_subtract_timedelta d o.\n")
 
+    # ---------------- pendulum._safe_timezone on every kind of argument it distinguishes, and DateTime.instance with a FOREIGN tzinfo
+    TA = "gtzarg"
+    cs = P.Ctx()
+    cs.int_boolop = cs.obj_fragment = cs.conservative_exit = True
+    cs.consts["UTC"] = ("g_UTC", TZ)
+    cs.opaque["isinstance(obj, (Timezone, FixedTimezone))"] = ("ta_kind {obj} =? 0", B)
+    cs.opaque["isinstance(obj, (int, float))"] = ("ta_kind {obj} =? 4", B)
+    cs.opaque["isinstance(obj, _datetime.tzinfo)"] = ("ta_kind {obj} =? 5", B)
+    cs.opaque["hasattr(obj, 'key')"] = ("ta_has_key {obj}", B)
+    cs.opaque["hasattr(obj, 'localize')"] = ("ta_has_localize {obj}", B)
+    cs.opaque["obj.tzname(None) == 'UTC'"] = ("ta_tzname_utc {obj}", B)
+    cs.opaque["obj.utcoffset(dt)"] = ("ta_utcoffset {obj}", OZ)
+    cs.opaque["obj.key"] = ("ta_key {obj}", TA)
+    cs.opaque["obj.zone"] = ("ta_zone {obj}", TA)
+    cs.opaque["int(obj * 60 * 60)"] = ("ta_of_offset (ta_hours {obj} * 60 * 60) {obj}", TA)
+    cs.opaque["int(offset.total_seconds())"] = ("ta_of_offset (Z.quot {offset} 1000000) {obj}", TA)
+    cs.funcs["timezone"] = ("g_timezone", [TA], TZ, None)
+    cs.funcs["_as_tz"] = ("ta_tz", [TA], TZ, None)
+    from .g13_stdlib_zone import Specialise as _Sp2
+    sp = _Sp2("_safe_timezone", {"obj is None": False, "obj == 'local'": False})
+    fn = sp.visit(copy.deepcopy(P.find_function(init_tree, "_safe_timezone")))
+    if sp.used != {"obj is None", "obj == 'local'"}:
+        raise P.Unsupported("_safe_timezone: the None / 'local' test changed")
+
+    class SafeRw(ast.NodeTransformer):
+        def visit_Call(self, node):
+            self.generic_visit(node)
+            f_ = ast.unparse(node.func)
+            if f_ == "cast" and len(node.args) == 2:
+                return node.args[1]
+            if f_ == "_datetime.timedelta" and [ast.unparse(a) for a in node.args] == ["0"] and not node.keywords:
+                return ast.copy_location(ast.Constant(value=0), node)
+            return node
+
+        def visit_Return(self, node):
+            self.generic_visit(node)
+            if ast.unparse(node) == "return obj":
+                return ast.copy_location(ast.Return(value=ast.Call(func=ast.Name(id="_as_tz", ctx=ast.Load()),
+                                                                    args=[ast.Name(id="obj", ctx=ast.Load())], keywords=[])), node)
+            return node
+    fn = SafeRw().visit(fn)
+    ast.fix_missing_locations(fn)
+    if [a.arg for a in fn.args.args] != ["obj", "dt"] or [ast.unparse(d_) for d_ in fn.args.defaults] != ["None"]:
+        raise P.Unsupported("_safe_timezone: unexpected signature")
+    fn.args.args = fn.args.args[:1]
+    fn.args.defaults = []
+    text, rett, monad = _tr(cs, fn, "glue_safe_timezone", {"obj": TA}, None,
+                            "translated from src/pendulum/__init__.py :: _safe_timezone SPECIALISED to an argument that is not None and not 'local' "
+                            "(the system local timezone is out of scope); the argument is the record gtzarg of what the code asks of it; "
+                            "int(x.total_seconds()) truncates toward zero (Z.quot); timezone(name | int) = g_timezone; the dt parameter only feeds "
+                            "obj.utcoffset(dt)")
+    if rett != TZ:
+        raise P.Unsupported("_safe_timezone: unexpected type")
+    out.append(text)
+    safe_monad = monad
+    # DateTime.instance when the tzinfo of the native value / the tz argument may be foreign
+    out.append("(* a native datetime whose tzinfo is an ARGUMENT KIND of _safe_timezone (possibly foreign) *)\n"
+               "Record gfdt := mkgfdt { fd_wall : Z; fd_fold : Z; fd_tz : option gtzarg }.\n"
+               "Definition fd_gdt (d : gfdt) : gdt := mkgdt (fd_wall d) (fd_fold d) None.\n"
+               "Definition opt_ta_or (a b : option gtzarg) : option gtzarg := match a with Some _ => a | None => b end.\n")
+    cf2 = _base_ctx()
+    cf2.attrs = {f_: ("(fun d : gfdt => g_" + f_ + " (fd_gdt d))", Z) for f_ in FIELDS}
+    cf2.attrs.update({"fold": ("fd_fold", Z), "tzinfo": ("fd_tz", ("opt", TA))})
+    cf2.kwfuncs["_create"] = cd.kwfuncs["_create"]
+    cf2.opaque["dt.tzinfo or tz"] = ("opt_ta_or (fd_tz {dt}) {tz}", ("opt", TA))
+    if safe_monad == "result":
+        cf2.funcs["_safe_tz"] = ("glue_safe_timezone", [TA], TZ, "result")
+    else:
+        cf2.funcs["_safe_tz"] = ("glue_safe_timezone", [TA], TZ, None)
+    fn = copy.deepcopy(P.find_function(dt_tree, "DateTime.instance"))
+    fn.args.args = fn.args.args[1:]
+
+    class InstF(ast.NodeTransformer):
+        def visit_Call(self, node):
+            self.generic_visit(node)
+            f_ = ast.unparse(node.func)
+            if f_ == "pendulum._safe_timezone" and len(node.args) == 1 and [k.arg for k in node.keywords] == ["dt"]:
+                return ast.copy_location(ast.Call(func=ast.Name(id="_safe_tz", ctx=ast.Load()), args=node.args, keywords=[]), node)
+            if f_ == "cls.create":
+                return ast.copy_location(ast.Call(func=ast.Name(id="_create", ctx=ast.Load()), args=node.args, keywords=node.keywords), node)
+            return node
+    fn = InstF().visit(fn)
+    ast.fix_missing_locations(fn)
+    # `if tz is not None: tz = _safe_timezone(tz)` changes the type of tz (argument kind -> timezone object): give the result its own name
+    body_txt = [ast.unparse(st) for st in fn.body if not (isinstance(st, ast.Expr) and isinstance(st.value, ast.Constant))]
+    if body_txt[:2] != ["tz = dt.tzinfo or tz", "if tz is not None:\n    tz = _safe_tz(tz)"] or len(body_txt) != 3 or "tz=tz" not in body_txt[2]:
+        raise P.Unsupported(f"DateTime.instance: unexpected body {body_txt[:2]}")
+    new_src = ("def instance(dt, tz):\n    tz = dt.tzinfo or tz\n    tzobj = None\n    if tz is not None:\n        tzobj = _safe_tz(tz)\n    "
+               + body_txt[2].replace("tz=tz", "tz=tzobj") + "\n")
+    fn = ast.parse(new_src).body[0]
+    cf2.none_for["tzobj"] = ("(@None gtz)", OTZ)
+    text, rett, monad = _tr(cf2, fn, "glue_DateTime_instance_foreign", {"dt": "gfdt", "tz": ("opt", TA)}, None,
+                            "translated from src/pendulum/datetime.py :: DateTime.instance with _safe_timezone NOT assumed to be the identity "
+                            "(RECOGNISED SHAPE: the rebinding `tz = _safe_timezone(tz, dt=dt)` under `if tz is not None` gets its own name tzobj, "
+                            "because its type changes from an argument kind to a timezone object)", force_result=True)
+    out.append(text)
+
     fn = _fn(dt_tree, "DateTime.int_timestamp")
     text, rett, monad = _tr(cd, fn, "glue_DateTime_int_timestamp", {}, DT, "translated from src/pendulum/datetime.py :: DateTime.int_timestamp (a property)",
                             force_result=True)
